@@ -9,7 +9,8 @@
 (* (id = millisecond only).                                                                  *)
 EXTENDS Naturals, FiniteSets, Sequences, TLC, Json
 
-CONSTANTS Keys, Vals, Ttls, MaxT, MaxCp, MaxOps, MaxIds, UniqueIds
+CONSTANTS Keys, Vals, Ttls, MaxT, MaxCp, MaxOps, MaxIds, UniqueIds,
+          DefTtl       \* StateConfig.enable_ttl with default_ttl = DefTtl ms (0: disabled): a plain put stamps that TTL
 
 NoTtl == 0
 Absent == [val |-> 0, created |-> 0, ttl |-> NoTtl]      \* val 0 = key absent
@@ -29,7 +30,7 @@ Init == /\ now = 1 /\ store = [k \in Keys |-> Absent] /\ meta = <<>> /\ disk = <
 Idle == wr.step = "none"
 Unch == UNCHANGED <<meta, disk, snap, issued, wr>>
 
-Put(k, v)       == /\ Idle /\ store' = [store EXCEPT ![k] = [val |-> v, created |-> now, ttl |-> NoTtl]] /\ UNCHANGED now /\ Unch
+Put(k, v)       == /\ Idle /\ store' = [store EXCEPT ![k] = [val |-> v, created |-> now, ttl |-> IF DefTtl > 0 THEN DefTtl ELSE NoTtl]] /\ UNCHANGED now /\ Unch
                    /\ last' = [op |-> "put", k |-> k, v |-> v, ok |-> TRUE]
 PutTtl(k, v, t) == /\ Idle /\ store' = [store EXCEPT ![k] = [val |-> v, created |-> now, ttl |-> t]] /\ UNCHANGED now /\ Unch
                    /\ last' = [op |-> "put_ttl", k |-> k, v |-> v, ttl |-> t, ok |-> TRUE]
